@@ -314,8 +314,26 @@ def rows(g, start=None, stop=None, max_paths=4000, want_calls=None, max_visits=1
                     k = ('bin', 'Eq', a, b)
                     v = t if pe[1] == 'Eq' else (not t)
                 if k in seen and seen[k] != v:
-                    feasible = False
-                    break
+                    o = seen[k]
+                    if isinstance(o, tuple) and isinstance(v, tuple) and o[0] in ('case', 'otherwise') and v[0] in ('case', 'otherwise'):
+                        # two switches on one value (a tuple pattern tested column by column): `case c` twice must
+                        # agree; `case c` and `not in S` need c outside S; two exclusions accumulate
+                        if o[0] == 'case' and v[0] == 'case':
+                            ok = (o[1] == v[1])
+                        elif o[0] == 'case':
+                            ok = o[1] not in v[1]
+                            v = o
+                        elif v[0] == 'case':
+                            ok = v[1] not in o[1]
+                        else:
+                            ok = True
+                            v = ('otherwise', tuple(sorted(set(o[1]) | set(v[1]))))
+                        if not ok:
+                            feasible = False
+                            break
+                    else:
+                        feasible = False
+                        break
                 seen[k] = v
         if feasible:
             out.append(row)
